@@ -53,6 +53,10 @@ macro_rules! harness_list {
         $m!(c04_atomic_ack_n3_k2, 18, scen::c04_atomic_ack::<4, 2>);
         $m!(c05_fault_n2_k2, 18, scen::c05_fault::<3, 2>);
         $m!(c09_nonint_n2, 18, scen::c09_nonint::<3>);
+        $m!(c09_nonint_n3_k0, 18, scen::c09_nonint_k::<4, 0>);
+        $m!(c09_nonint_n3_k1, 18, scen::c09_nonint_k::<4, 1>);
+        $m!(c09_nonint_n3_k2, 18, scen::c09_nonint_k::<4, 2>);
+        $m!(c09_nonint_n3_k3, 18, scen::c09_nonint_k::<4, 3>);
         $m!(c01_step_n8_k0, 18, scen::c01_step::<9, 0>);
         $m!(c01_step_n8_k1, 18, scen::c01_step::<9, 1>);
         $m!(c01_step_n8_k2, 18, scen::c01_step::<9, 2>);
